@@ -36,6 +36,21 @@ def gen(ctx):
                     c = cfg_str(mode=mode, rfc=rfc, resume=resume, ver=ver, verify="peer")
                     yield line(c, [connect(), get(mode, rfc, end="cb"), "disc:0", connect(), lst(mode, rfc, end="cb"), "disc:0", connect(),
                                    "put:STOR:%s:g3.5000@%s/%s" % (H(b"SECRETPATH04.bin"), setup(mode, rfc), ",".join([R(b"150 go"), R(b"226 done"), "Drecv:-:cb"])), "disc:0"])
+        # a transfer cancelled by its callback (ABOR) on a protected session: ABOR and whatever goes with it stays inside TLS
+        abor = ",".join([R(b"426 aborted"), R(b"226 abor ok")])
+        for mode in "pa":
+            for rfc in (0, 1):
+                c = cfg_str(mode=mode, rfc=rfc, ver=ver, verify="none")
+                g = "get:%s:ok:p01@%s/%s/%s" % (H(b"SECRETPATH03.bin"), setup(mode, rfc), ",".join([R(b"150 go"), "Dsend:g7.8192::c"]), abor)
+                p = "put:STOR:%s:g8.20000:p01@%s/%s/%s" % (H(b"SECRETPATH04.bin"), setup(mode, rfc), ",".join([R(b"150 go"), "Drecv:-:c"]), abor)
+                yield line(c, [connect(), g, noop, p, noop, "disc:1@" + R(b"221 bye")])
+        # connect() on a client that is still connected over TLS to a host that cannot be resolved: the old connection must not be
+        # used in clear text afterwards
+        bad = H(b"x" * 80 + b".invalid")
+        for verify in ("peer", "none"):
+            c = cfg_str(ver=ver, verify=verify)
+            yield line(c, [connect(), "connect:%s:-" % bad, "isconn", "noop", "pwd", "disc:0", "isconn", connect(), noop, "disc:1@" + R(b"221 bye")])
+            yield line(c, [connect(), get("p", 1), "connect:%s:-:%s:%s" % (bad, H(b"SECRETUSER09"), H(b"SECRETPASS10")), "login:%s:%s" % (H(b"SECRETUSER09"), H(b"SECRETPASS10")), "disc:1", "isconn"])
         for pbsz, prot in ((500, 200), (200, 534), (200, 500)):
             yield line(cfg_str(ver=ver), [connect(pbsz=pbsz, prot=prot), noop])
         for login in ((530, 0), (331, 530), (230, 0)):
